@@ -69,7 +69,9 @@ def kw_text(src):
 
 @st.composite
 def ddl_source(draw):
-    k = draw(st.integers(0, 11))
+    k = draw(st.integers(0, 12))
+    if k == 12:
+        return {"t": "raw", "text": draw(st.sampled_from(universe.SHORT_FORMS))[0]}  # dialect short forms
     if k == 11:
         return draw(kw_source())
     if k == 10:
